@@ -8,6 +8,10 @@ FAMILIES = ["herm", "gen"]
 def build(tier):
     report = {}
     groups = SG.select(PROP, FAMILIES, report)
+    from props import kernels
+    krep = {}
+    groups += kernels.hessqr_groups(tier, krep) + kernels.dsqr_groups(tier, krep) + kernels.bkldlt_groups(tier, krep) + kernels.tridiagqr_groups(krep) + kernels.eigen_groups(tier, krep)
+    report["kernels"] = krep
     meta = {"level": "proof", "trusted_base": SG.TRUSTED, "assumptions": SG.ASSUMPTIONS, "extraction": report,
             "not_covered": ['NaN-freedom of the Eigen-expression arithmetic as a whole', 'raw-pointer dense kernels (bounded, C08/C09/C10)'],
             "explanation": "CBMC bounds/pointer checks on arrays allocated with exactly the Eigen size are Eigen's index assertions"}
